@@ -36,7 +36,7 @@ type schedCase struct {
 	Pred    pred     `json:"pred"`
 	Init    []string `json:"init"`    // writes before anything concurrent happens
 	Prog    []string `json:"prog"`    // the writer thread's writes, in order: add/upd/ups/del
-	Choices []int    `json:"choices"` // scheduler choices: 0 = writer thread moves, 1 = subscriber moves
+	Choices []int    `json:"choices"` // scheduler choices: 0 = a writer starts the next write, 1 = subscriber moves, 2 = publish the oldest pending commit; an odd count allows two pending commits
 }
 
 type schedObs struct {
@@ -46,6 +46,10 @@ type schedObs struct {
 	Recv    []string `json:"recv"`   // delivered later events (up to, not including, the fence)
 	List    string   `json:"list"`   // List(WithInclude p) at the end
 	Problem string   `json:"problem,omitempty"`
+	// MaxPending: the largest number of committed, unpublished writes at any moment; StaleAtListen: how
+	// many of them were pending when the subscriber registered (they are in its seed and reach it anyway)
+	MaxPending    int `json:"max_pending"`
+	StaleAtListen int `json:"stale_at_listen"`
 }
 
 func (o schedObs) answer() string {
@@ -60,6 +64,14 @@ func (c schedCase) driverLine(o schedObs) string {
 	return strings.Join(append(toks, o.Steps...), " ")
 }
 
+// pendingWrite is a write under way in its own goroutine (a writer thread).
+type pendingWrite struct {
+	op      string
+	parked  chan struct{} // signalled when it reaches coll.update.beforeSend (committed, not yet published)
+	release chan struct{}
+	done    chan struct{}
+}
+
 func (c schedCase) run() (o schedObs) {
 	col := resource.NewCollection()
 	for _, op := range c.Init {
@@ -68,17 +80,18 @@ func (c schedCase) run() (o schedObs) {
 	ctx, cancel := context.WithCancel(context.Background())
 	defer cancel()
 
-	var writerID, subID atomic.Int64
-	writerID.Store(-1)
+	var writers sync.Map // goroutine id -> *pendingWrite
+	var subID atomic.Int64
 	subID.Store(-1)
-	wParked, sParked := make(chan struct{}, 1), make(chan struct{}, 1)
-	wRelease, sRelease := make(chan struct{}), make(chan struct{})
+	sParked := make(chan struct{}, 1)
+	sRelease := make(chan struct{})
 	verifhook.Set(func(point string) {
 		switch point {
 		case "coll.update.beforeSend":
-			if verifhook.GoID() == writerID.Load() {
-				wParked <- struct{}{}
-				<-wRelease
+			if w, ok := writers.Load(verifhook.GoID()); ok {
+				pw := w.(*pendingWrite)
+				pw.parked <- struct{}{}
+				<-pw.release
 			}
 		case "coll.onUpdate.beforeListen":
 			if verifhook.GoID() == subID.Load() {
@@ -119,29 +132,39 @@ func (c schedCase) run() (o schedObs) {
 		}()
 	}
 
-	// writer side
-	type wstate int
-	const (
-		wIdle wstate = iota
-		wPend         // parked at beforeSend
-		wBlocked      // started while the subscriber holds the lock; has neither parked nor returned
-	)
-	ws := wIdle
-	var wDone chan struct{}
+	// writer side: every write runs in its own goroutine (a writer thread); `queue` holds the writes that
+	// have committed and are parked before their publication, in commit order - they are published in that
+	// order (the model's FIFO `pend`, C03's `ordered` hypothesis, which the scheduler here guarantees);
+	// `blocked` is a write started while the subscriber holds the lock that has neither parked nor returned
+	var queue []*pendingWrite
+	var blocked *pendingWrite
 	prog := append([]string{}, c.Prog...)
-	cur := ""
+	var all []*pendingWrite
+	start := func(op string) *pendingWrite {
+		pw := &pendingWrite{op: op, parked: make(chan struct{}, 1), release: make(chan struct{}), done: make(chan struct{})}
+		all = append(all, pw)
+		ready := make(chan struct{})
+		go func() {
+			writers.Store(verifhook.GoID(), pw)
+			close(ready)
+			_, _ = lib.Catch(func() { _ = applyOp(col, op) })
+			close(pw.done)
+		}()
+		<-ready
+		return pw
+	}
 	stepOf := func(op string) string {
 		if strings.HasPrefix(op, "del:") {
 			return "d=" + strings.TrimPrefix(op, "del:")
 		}
 		return "c=" + op
 	}
-	// wait for the running write to park or return; false = neither within d
-	settle := func(d time.Duration) (parked, returned bool) {
+	// wait for a running write to park or return; false, false = neither within d
+	settle := func(pw *pendingWrite, d time.Duration) (parked, returned bool) {
 		select {
-		case <-wParked:
+		case <-pw.parked:
 			return true, false
-		case <-wDone:
+		case <-pw.done:
 			return false, true
 		case <-time.After(d):
 			return false, false
@@ -152,106 +175,121 @@ func (c schedCase) run() (o schedObs) {
 		o.Problem = s
 		// let everything run out
 		verifhook.Set(nil)
-		close(wRelease)
+		for _, pw := range all {
+			select {
+			case <-pw.release:
+			default:
+				close(pw.release)
+			}
+		}
 		close(sRelease)
 		return o
 	}
+	maxPending := 1 + len(c.Choices)%2 // one or two writer threads with unpublished commits at a time
 
 	choice := 0
-	for len(prog) > 0 || ws != wIdle || subState != 2 {
-		ch := choice % 2
+	for len(prog) > 0 || len(queue) > 0 || blocked != nil || subState != 2 {
+		ch := choice % 3
 		if choice < len(c.Choices) {
-			ch = c.Choices[choice]
+			ch = c.Choices[choice] % 3
 		}
 		choice++
-		writerCanMove := ws == wPend || (ws == wIdle && len(prog) > 0)
-		subCanMove := subState != 2
-		if ch == 0 && !writerCanMove {
+		// 0 = a writer starts the next write, 1 = the subscriber moves, 2 = the oldest pending commit is published
+		canStart := len(prog) > 0 && blocked == nil && len(queue) < maxPending &&
+			!(strings.HasPrefix(prog[0], "del:") && len(queue) > 0) // a Delete publishes under the lock: only when nothing is pending
+		canPublish := len(queue) > 0
+		canSub := subState != 2
+		if ch == 0 && !canStart {
+			ch = 2
+		}
+		if ch == 2 && !canPublish {
 			ch = 1
 		}
-		if ch == 1 && !subCanMove {
-			ch = 0
-		}
-		if ch == 0 {
-			switch ws {
-			case wPend:
-				wRelease <- struct{}{}
-				select {
-				case <-wDone:
-				case <-time.After(fenceTimeout):
-					return problem("publish of " + cur + " did not return within 5s")
-				}
-				o.Steps = append(o.Steps, "p")
-				ws = wIdle
-			case wIdle:
-				cur, prog = prog[0], prog[1:]
-				done := make(chan struct{})
-				wDone = done
-				op := cur
-				go func() {
-					writerID.Store(verifhook.GoID())
-					_, _ = lib.Catch(func() { _ = applyOp(col, op) })
-					close(done)
-				}()
-				o.Steps = append(o.Steps, stepOf(cur))
-				if subState == 1 {
-					// the subscriber holds the read lock: the model says this step is disabled
-					parked, returned := settle(raceGrace)
-					switch {
-					case parked:
-						o.Notes = append(o.Notes, cur+" COMMITTED while the subscriber held the lock")
-						ws = wPend
-						// the model ignored the step; what follows can only disagree
-					case returned:
-						o.Notes = append(o.Notes, cur+" returned while the subscriber held the lock")
-					default:
-						o.Notes = append(o.Notes, cur+" blocked while the subscriber held the lock")
-						ws = wBlocked
-					}
-				} else {
-					parked, returned := settle(fenceTimeout)
-					switch {
-					case parked:
-						ws = wPend
-					case returned:
-					default:
-						return problem(cur + " neither committed nor returned within 5s")
-					}
-				}
+		if ch == 1 && !canSub {
+			if canStart {
+				ch = 0
+			} else {
+				ch = 2
 			}
-			continue
 		}
-		switch subState {
+		switch ch {
+		case 2:
+			pw := queue[0]
+			queue = queue[1:]
+			close(pw.release)
+			select {
+			case <-pw.done:
+			case <-time.After(fenceTimeout):
+				return problem("publish of " + pw.op + " did not return within 5s")
+			}
+			o.Steps = append(o.Steps, "p")
 		case 0:
-			startSub()
-			select {
-			case <-sParked:
-			case <-time.After(fenceTimeout):
-				return problem("Pull did not reach coll.onUpdate.beforeListen within 5s")
-			}
-			o.Steps = append(o.Steps, "s")
-			subState = 1
-		case 1:
-			sRelease <- struct{}{}
-			select {
-			case chn := <-pulled:
-				consume(chn)
-			case <-time.After(fenceTimeout):
-				return problem("Pull did not return within 5s")
-			}
-			o.Steps = append(o.Steps, "l")
-			subState = 2
-			if ws == wBlocked {
-				// the blocked write gets through now: it is the model's step, enabled this time
-				parked, returned := settle(fenceTimeout)
-				o.Steps = append(o.Steps, stepOf(cur))
+			op := prog[0]
+			prog = prog[1:]
+			pw := start(op)
+			o.Steps = append(o.Steps, stepOf(op))
+			if subState == 1 {
+				// the subscriber holds the read lock: the model says this step is disabled
+				parked, returned := settle(pw, raceGrace)
 				switch {
 				case parked:
-					ws = wPend
+					o.Notes = append(o.Notes, op+" COMMITTED while the subscriber held the lock")
+					queue = append(queue, pw)
+					// the model ignored the step; what follows can only disagree
 				case returned:
-					ws = wIdle
+					o.Notes = append(o.Notes, op+" returned while the subscriber held the lock")
 				default:
-					return problem(cur + " still blocked 5s after the subscriber released the lock")
+					o.Notes = append(o.Notes, op+" blocked while the subscriber held the lock")
+					blocked = pw
+				}
+			} else {
+				parked, returned := settle(pw, fenceTimeout)
+				switch {
+				case parked:
+					queue = append(queue, pw)
+					if len(queue) > o.MaxPending {
+						o.MaxPending = len(queue)
+					}
+				case returned:
+				default:
+					return problem(op + " neither committed nor returned within 5s")
+				}
+			}
+		case 1:
+			switch subState {
+			case 0:
+				startSub()
+				select {
+				case <-sParked:
+				case <-time.After(fenceTimeout):
+					return problem("Pull did not reach coll.onUpdate.beforeListen within 5s")
+				}
+				o.Steps = append(o.Steps, "s")
+				subState = 1
+			case 1:
+				sRelease <- struct{}{}
+				select {
+				case chn := <-pulled:
+					consume(chn)
+				case <-time.After(fenceTimeout):
+					return problem("Pull did not return within 5s")
+				}
+				o.Steps = append(o.Steps, "l")
+				subState = 2
+				o.StaleAtListen = len(queue)
+				if blocked != nil {
+					// the blocked write gets through now: it is the model's step, enabled this time
+					pw := blocked
+					blocked = nil
+					parked, returned := settle(pw, fenceTimeout)
+					o.Steps = append(o.Steps, stepOf(pw.op))
+					switch {
+					case parked:
+						queue = append(queue, pw)
+					case returned:
+					default:
+						return problem(pw.op + " still blocked 5s after the subscriber released the lock")
+					}
 				}
 			}
 		}
@@ -341,9 +379,12 @@ func genSched(r *rand.Rand) schedCase {
 	c := schedCase{Kind: "sched", Pred: p}
 	all := genOps(r, ids, vals2, r.Intn(3)+1+r.Intn(4))
 	for _, op := range all {
-		if strings.HasPrefix(op, "delc:") {
-			q := strings.Split(op, ":")
+		// plain writes only: the options / re-entrant variants belong to the sequential sessions
+		switch q := strings.Split(op, ":"); q[0] {
+		case "delc", "delv", "dela":
 			op = "del:" + q[1]
+		case "addc", "updc", "upsc":
+			op = map[string]string{"addc": "add", "updc": "upd", "upsc": "ups"}[q[0]] + ":" + q[1] + ":" + q[2]
 		}
 		c.Prog = append(c.Prog, op)
 	}
@@ -352,20 +393,52 @@ func genSched(r *rand.Rand) schedCase {
 		n = len(c.Prog) - 1
 	}
 	c.Init, c.Prog = c.Prog[:n], c.Prog[n:]
-	for i := 0; i < 2*len(c.Prog)+4; i++ {
-		c.Choices = append(c.Choices, r.Intn(2))
+	// a fifth of the schedules are random; the others start with a fixed prefix - one or two writers commit, then the
+	// subscriber snapshot and register, and only then go on at random: it registers with commits pending
+	// (events its seed already contains reach it afterwards)
+	switch r.Intn(5) {
+	case 1:
+		c.Choices = append(c.Choices, 0, 1, 1)
+	case 2:
+		c.Choices = append(c.Choices, 0, 0, 1, 1)
+	case 3: // a write started while the subscriber holds the lock
+		c.Choices = append(c.Choices, 1, 0, 1)
+	case 4: // both: a commit pending, then a write started under the subscriber's lock
+		c.Choices = append(c.Choices, 0, 1, 0, 1)
+	}
+	for i, n := 0, 3*len(c.Prog)+4+r.Intn(2); i < n; i++ {
+		c.Choices = append(c.Choices, r.Intn(3))
 	}
 	return c
 }
 
 func runSched(f lib.Flags, res *lib.Result, drv *lib.Driver) {
 	tie := res.Tie("subscribe-schedules", "K4",
-		"random schedules of the concurrent subscribe model executed on a real Collection through the yield points coll.update.beforeSend (writer committed, not yet published) and coll.onUpdate.beforeListen (subscriber computed its seed, read lock held): writer thread of 1-4 writes (Add/Update/Upsert/Delete incl. failing ones) over 1-2 ids x 2 values interleaved at random with Pull(WithInclude p, WithBackpressure(true))'s snapshot and listen steps; a write started while the subscriber holds the lock must block (model: step disabled) and is re-issued after listen; at the end the delivered seed, the delivered events and List(WithInclude p) are compared with the model's `sched` answer for the executed schedule; non-trivial = predicate not nil; distinct = (predicate, initial writes, executed steps)")
+		"schedules of the concurrent subscribe model executed on a real Collection through the yield points coll.update.beforeSend (a writer committed, not yet published) and coll.onUpdate.beforeListen (subscriber computed its seed, read lock held): 1-6 writes (Add/Update/Upsert/Delete incl. failing ones) over 1-2 ids x 2 values, each in its own writer goroutine, up to two of them committed and unpublished at a time, publications released in commit order, interleaved with Pull(WithInclude p, WithBackpressure(true))'s snapshot and listen steps - at random after a fixed prefix (commits pending at the snapshot; a write started under the subscriber's lock; both; none); thorough adds every choice sequence of length 5 for four small programs x three predicates; a write started while the subscriber holds the lock must block (model: step disabled) and is re-issued after listen; at the end the delivered seed, the delivered events and List(WithInclude p) are compared with the model's `sched` answer for the executed schedule; non-trivial = predicate not nil; distinct = (predicate, initial writes, executed steps)")
 	mon := res.Monitor("subscribe-fold", "on the same schedules, independent of the model: at the quiescent end fold(seed ++ delivered events) = List(WithInclude p) = the filtered plain map; distinct = (predicate, initial writes, executed steps)")
 	r := lib.NewRand(f.Seed + 13)
 	n := f.N(150, 1500)
+	var cases []schedCase
 	for i := 0; i < n; i++ {
-		c := genSched(r)
+		cases = append(cases, genSched(r))
+	}
+	if f.Thorough() {
+		// bounded-exhaustive: every choice sequence of length 5 (two commits may be pending) for small
+		// writer programs on one id, under the predicates "x", "y", "x or y"
+		progs := [][]string{{"upd:a:y"}, {"upd:a:y", "upd:a:x"}, {"del:a", "add:a:y"}, {"upd:a:y", "del:a"}}
+		for _, prog := range progs {
+			for _, mask := range []uint64{2, 4, 6} {
+				for code := 0; code < 243; code++ {
+					c := schedCase{Kind: "sched", Pred: pred{Ids: []string{"a"}, Vals: vals2, Mask: mask}, Init: []string{"add:a:x"}, Prog: prog}
+					for k, x := 0, code; k < 5; k, x = k+1, x/3 {
+						c.Choices = append(c.Choices, x%3)
+					}
+					cases = append(cases, c)
+				}
+			}
+		}
+	}
+	for _, c := range cases {
 		var first schedObs
 		runs := 0
 		confirmed(res, mon, func(sk sink) any {
@@ -390,14 +463,7 @@ func runSched(f lib.Flags, res *lib.Result, drv *lib.Driver) {
 				break
 			}
 		}
-		stale := false
-		for i, s := range first.Steps {
-			if s == "s" && i > 0 && strings.HasPrefix(first.Steps[i-1], "c=") {
-				stale = true
-			}
-		}
-		if stale {
-			tie.Count("schedules snapshotting between a commit and its publication")
-		}
+		tie.Count(fmt.Sprintf("commits pending when the subscriber registered: %d", first.StaleAtListen))
+		tie.Count(fmt.Sprintf("max commits pending: %d", first.MaxPending))
 	}
 }
